@@ -47,8 +47,17 @@ func cmdCheck(prop, tier string, keep bool) int {
 			fmt.Printf("VIOLATION property=%s replay=%s no-failing-input-found\n", prop, rp)
 		case "violated":
 			violations++
-			rp := writeReplay(prop, r, "")
-			fmt.Printf("VIOLATION property=%s replay=%s obligation=%s no-failing-input-found\n", prop, rp, r.Name)
+			var rr *ReplayResult
+			if r.Failing != nil && r.Failing.Result.Status == "sat" && os.Getenv("GCV_NOREPLAY") == "" {
+				x := attemptReplay(p, prop, r.Failing)
+				rr = &x
+			}
+			rp := writeReplayWith(prop, r, "", rr)
+			if rr != nil && rr.Confirmed {
+				fmt.Printf("VIOLATION property=%s replay=%s obligation=%s (counterexample replayed on the real code: %s)\n", prop, rp, r.Name, rr.Reason)
+			} else {
+				fmt.Printf("VIOLATION property=%s replay=%s obligation=%s no-failing-input-found\n", prop, rp, r.Name)
+			}
 		case "unknown":
 			if contains(baselineNames, r.Name) {
 				violations++
@@ -98,6 +107,10 @@ func cmdCheck(prop, tier string, keep bool) int {
 }
 
 func writeReplay(prop string, r *NamedResult, reason string) string {
+	return writeReplayWith(prop, r, reason, nil)
+}
+
+func writeReplayWith(prop string, r *NamedResult, reason string, rr *ReplayResult) string {
 	dir := filepath.Join(verifDir, "replays", prop)
 	os.MkdirAll(dir, 0o755)
 	path := filepath.Join(dir, unsafeName.ReplaceAllString(r.Name, "_")+".json")
@@ -113,6 +126,9 @@ func writeReplay(prop string, r *NamedResult, reason string) string {
 			rec["clause"] = r.Failing.Clause.Text
 			rec["clause_at"] = fmt.Sprintf("%s:%d", r.Failing.Clause.File, r.Failing.Clause.Line)
 		}
+	}
+	if rr != nil {
+		rec["replay"] = rr
 	}
 	writeJSON(path, rec)
 	return path
